@@ -198,6 +198,9 @@ func (t *trTranslator) leanType(from *trUnit, ty types.Type, pos token.Pos) stri
 		if x.Obj().Pkg().Path() == "strings" && x.Obj().Name() == "Builder" {
 			return "String" // the text written so far
 		}
+		if trIsWriter(x) {
+			return "String" // io.Writer: the text written so far (trans_units_jprinter.go)
+		}
 		if x.Obj().Pkg().Path() == "time" && trIsInt(x) {
 			return "Int" // time.Month, time.Weekday
 		}
@@ -230,6 +233,9 @@ func (t *trTranslator) leanType(from *trUnit, ty types.Type, pos token.Pos) stri
 		}
 		trFail(pos, "anonymous struct type is outside the subset")
 	case *types.Slice:
+		if trIsByteSlice(x) {
+			return "String" // []byte: the bytes of a text, only passed on to Write (trans_units_jprinter.go)
+		}
 		return "(List " + t.leanType(from, x.Elem(), pos) + ")"
 	case *types.Map:
 		if f, ok := trIdentityField(x.Key()); ok {
@@ -456,6 +462,9 @@ func (t *trTranslator) needType(u *trUnit, n *types.Named, pos token.Pos) {
 				}()
 				ft = t.leanType(u, f.Type(), f.Pos())
 			}()
+			if ft != "" && trNilable[obj.Pkg().Path()+"."+obj.Name()+"."+f.Name()] {
+				ft = "(Option " + ft + ")" // none = nil: the code observes the nil-ness of this slice (trans_units_jprinter.go)
+			}
 			if ft == "" {
 				if t.omitted[obj] == nil {
 					t.omitted[obj] = map[string]bool{}
